@@ -409,4 +409,4 @@ def _obligations():
 
 
 def obligations():
-    return _obligations() + [labels_obligation("C12"), selectors_obligation("C12"), mutations_obligation("C12"), effects_obligation("C12"), plumbing_obligation("C12"), overrides_obligation("C12"), options_obligation("C12"), handlers_obligation("C12")]
+    return _obligations() + [labels_obligation("C12"), selectors_obligation("C12"), mutations_obligation("C12"), loopstate_obligation("C12"), effects_obligation("C12"), plumbing_obligation("C12"), overrides_obligation("C12"), options_obligation("C12"), handlers_obligation("C12")]
